@@ -66,6 +66,12 @@ pub struct State<'tcx> {
     pub cells: Vec<Cell<'tcx>>,
     pub frames: Vec<Frame<'tcx>>,
     pub trace: Vec<String>,
+    /// conditions already decided on this path (term -> value): the same pure term is never forked on twice
+    pub decided: Vec<(T, u128)>,
+    /// abstract pointee cells of symbolic shared references
+    pub symcells: Vec<(T, usize)>,
+    /// (term, value) pairs ruled out on this path by an `otherwise` arm
+    pub excluded: Vec<(T, u128)>,
 }
 pub enum Outcome<'tcx> {
     Ret(V<'tcx>, Ty<'tcx>, State<'tcx>),
@@ -97,6 +103,8 @@ pub struct Cx<'tcx> {
 const STEP_CAP: usize = 3_000_000;
 const LEAF_CAP: usize = 4096;
 const DEPTH_CAP: usize = 64;
+/// visits of one block within one frame before a path is cut (concrete loops of the crate run at most 16 times)
+const DEFAULT_LOOP_BOUND: usize = 48;
 
 type R<X> = Result<X, String>;
 
@@ -470,7 +478,25 @@ impl<'tcx> Cx<'tcx> {
             match elem {
                 ProjectionElem::Deref => match self.read(st, &p)? {
                     V::Ref(q) => p = q,
-                    V::Sym(t) => return Err(format!("deref of symbolic {}", show(t))),
+                    V::Sym(t) => {
+                        // a shared reference of unknown origin (an item handed out by an opaque iterator): reads go
+                        // to one abstract cell per pointer term, holding `deref(p)` shaped by the pointee type
+                        let pty = self.ptr_ty(st, &p)?;
+                        match pty.kind() {
+                            ty::Ref(_, inner, m) if m.is_not() && !matches!(inner.kind(), ty::Slice(_) | ty::Str | ty::Dynamic(..)) => {
+                                if let Some(&(_, c)) = st.symcells.iter().find(|(d, _)| *d == t) {
+                                    p = ptr0(c);
+                                } else {
+                                    let v = self.shape(st, *inner, app("deref", vec![t]));
+                                    st.cells.push(Cell { ty: *inner, v, name: None });
+                                    let c = st.cells.len() - 1;
+                                    st.symcells.push((t, c));
+                                    p = ptr0(c);
+                                }
+                            }
+                            _ => return Err(format!("deref of symbolic {}", show(t))),
+                        }
+                    }
                     other => return Err(format!("deref of non-ref {:?}", other)),
                 },
                 ProjectionElem::Field(f, _) => {
@@ -590,7 +616,25 @@ impl<'tcx> Cx<'tcx> {
             }
         }
         let shown = match if evaluable { cc.eval(self.tcx, self.tenv, c.span) } else { Err(rustc_middle::mir::interpret::ErrorHandled::TooGeneric(c.span)) } {
-            Ok(val) => self.str_slice_const(val, ty).unwrap_or_else(|| format!("{}", mir::Const::Val(val, ty))),
+            Ok(val) => {
+                if let Some(items) = self.str_slice_const(val, ty) {
+                    // a constant table of names (`FIELDS`): a real array cell seen through a full window, so that
+                    // iterating or indexing it is concrete
+                    if let ty::Ref(_, inner, _) = ty.kind() {
+                        if let ty::Slice(elem) = inner.kind() {
+                            let n = items.len();
+                            let aty = Ty::new_array(self.tcx, *elem, n as u64);
+                            let shown = format!("&[{}]", items.iter().map(|x| format!("{:?}", x)).collect::<Vec<_>>().join(", "));
+                            st.cells.push(Cell { ty: aty, v: V::Agg(items.into_iter().map(V::Str).collect()), name: Some(shown) });
+                            let mut q = ptr0(st.cells.len() - 1);
+                            q.win = Some((0, n));
+                            return Ok(V::Ref(q));
+                        }
+                    }
+                    unreachable!()
+                }
+                format!("{}", mir::Const::Val(val, ty))
+            }
             Err(_) => format!("{}", cc),
         };
         let t = app("const", vec![cstr(&shown)]);
@@ -678,7 +722,7 @@ impl<'tcx> Cx<'tcx> {
         }
     }
 
-    fn str_slice_const(&self, val: mir::ConstValue, ty: Ty<'tcx>) -> Option<String> {
+    fn str_slice_const(&self, val: mir::ConstValue, ty: Ty<'tcx>) -> Option<Vec<String>> {
         let ty::Ref(_, inner, _) = ty.kind() else { return None };
         let ty::Slice(elem) = inner.kind() else { return None };
         let ty::Ref(_, e2, _) = elem.kind() else { return None };
@@ -709,9 +753,9 @@ impl<'tcx> Cx<'tcx> {
             let slen = read_usize(arr.inspect_with_uninit_and_ptr_outside_interpreter(o + ps..o + 2 * ps));
             let sa = tcx.global_alloc(p2.alloc_id()).unwrap_memory().inner();
             let bytes = sa.inspect_with_uninit_and_ptr_outside_interpreter(soff..soff + slen);
-            out.push(format!("{:?}", String::from_utf8_lossy(bytes)));
+            out.push(String::from_utf8_lossy(bytes).into_owned());
         }
-        Some(format!("&[{}]", out.join(", ")))
+        Some(out)
     }
 
     fn eval_operand(&self, st: &mut State<'tcx>, op: &Operand<'tcx>) -> R<V<'tcx>> {
@@ -1087,7 +1131,11 @@ impl<'tcx> Cx<'tcx> {
         Outcome::Top(format!("{} @ {}", why, self.span_str(sp)))
     }
     fn run_from(&self, st0: &mut State<'tcx>, base: usize) -> Outcome<'tcx> {
-        let mut st = std::mem::replace(st0, State { cells: vec![], frames: vec![], trace: vec![] });
+        rustc_data_structures::stack::ensure_sufficient_stack(|| self.run_from_inner(st0, base))
+    }
+
+    fn run_from_inner(&self, st0: &mut State<'tcx>, base: usize) -> Outcome<'tcx> {
+        let mut st = std::mem::replace(st0, State { cells: vec![], frames: vec![], trace: vec![], decided: vec![], symcells: vec![], excluded: vec![] });
         loop {
             {
                 let mut s = self.stats.borrow_mut();
@@ -1099,7 +1147,8 @@ impl<'tcx> Cx<'tcx> {
                     return Outcome::Top("leaf cap".into());
                 }
             }
-            if let Some(bound) = self.loop_bound {
+            {
+                let bound = self.loop_bound.unwrap_or(DEFAULT_LOOP_BOUND);
                 let f = st.frames.last_mut().unwrap();
                 if f.visits.is_empty() {
                     f.visits = vec![0; f.body.basic_blocks.len()];
@@ -1215,7 +1264,17 @@ impl<'tcx> Cx<'tcx> {
                         }
                         other => {
                             let t = self.to_term(&st, &other);
+                            if let Some(&(_, v)) = st.decided.iter().find(|(d, _)| *d == t) {
+                                if (v != 0) == *expected {
+                                    self.goto(&mut st, *target);
+                                    continue;
+                                } else {
+                                    self.stats.borrow_mut().leaves += 1;
+                                    return Outcome::Panic(kind, self.span_str(tsp));
+                                }
+                            }
                             let mut ok = st.clone();
+                            ok.decided.push((t, *expected as u128));
                             self.goto(&mut ok, *target);
                             let okb = self.run_from(&mut ok, base);
                             self.stats.borrow_mut().leaves += 1;
@@ -1233,15 +1292,36 @@ impl<'tcx> Cx<'tcx> {
                         V::Int(x) => self.goto(&mut st, targets.target_for_value(x)),
                         other => {
                             let t = self.to_term(&st, &other);
+                            if let Some(&(_, v)) = st.decided.iter().find(|(d, _)| *d == t) {
+                                self.goto(&mut st, targets.target_for_value(v));
+                                continue;
+                            }
                             let dty = self.subst(&fr, discr.ty(fr.body, self.tcx));
-                            let arms: Vec<(u128, BasicBlock)> = targets.iter().collect();
+                            // values already excluded on this path (an earlier `otherwise` of the same term)
+                            let excl: Vec<u128> = st.excluded.iter().filter(|(d, _)| *d == t).map(|(_, v)| *v).collect();
+                            let arms: Vec<(u128, BasicBlock)> = targets.iter().filter(|(v, _)| !excl.contains(v)).collect();
                             let ow = targets.otherwise();
+                            if arms.is_empty() {
+                                self.goto(&mut st, ow);
+                                continue;
+                            }
+                            {
+                                let owd0 = &fr.body.basic_blocks[ow];
+                                let unreach0 = matches!(owd0.terminator().kind, TerminatorKind::Unreachable) && owd0.statements.is_empty();
+                                if unreach0 && arms.len() == 1 && !excl.is_empty() {
+                                    st.decided.push((t, arms[0].0));
+                                    self.goto(&mut st, arms[0].1);
+                                    continue;
+                                }
+                            }
                             let owd = &fr.body.basic_blocks[ow];
                             let ow_unreach = matches!(owd.terminator().kind, TerminatorKind::Unreachable) && owd.statements.is_empty();
                             if dty.is_bool() && arms.len() == 1 && arms[0].0 == 0 {
                                 let mut s_then = st.clone();
+                                s_then.decided.push((t, 1));
                                 self.goto(&mut s_then, ow);
                                 let o_then = self.run_from(&mut s_then, base);
+                                st.decided.push((t, 0));
                                 self.goto(&mut st, arms[0].1);
                                 let o_else = self.run_from(&mut st, base);
                                 return Outcome::Ite(self.bool_term(t), Box::new(o_then), Box::new(o_else));
@@ -1249,12 +1329,16 @@ impl<'tcx> Cx<'tcx> {
                             let mut outs = vec![];
                             for (val, bb) in arms {
                                 let mut s1 = st.clone();
+                                s1.decided.push((t, val));
                                 self.goto(&mut s1, bb);
                                 outs.push((val, self.run_from(&mut s1, base)));
                             }
                             let other = if ow_unreach {
                                 None
                             } else {
+                                for (v, _) in targets.iter() {
+                                    st.excluded.push((t, v));
+                                }
                                 self.goto(&mut st, ow);
                                 Some(Box::new(self.run_from(&mut st, base)))
                             };
@@ -1795,7 +1879,12 @@ impl<'tcx> Cx<'tcx> {
         }
         entry.push(']');
         if name == "core::iter::traits::iterator::Iterator::fold" && argv.len() == 3 {
-            let lam = self.lambda(st, cargs, &argv[2], argtys[2], argtys[1]);
+            let lam = self.lambda(st, cargs, &argv[2], argtys[2], Some(argtys[1]));
+            entry.push_str(&format!(",\"lambda\":{}", lam));
+        }
+        if name == "core::iter::traits::iterator::Iterator::map" && argv.len() == 2 {
+            // the mapping closure applied to one fresh item (an adaptor in front of a fold / loop must be shown harmless)
+            let lam = self.lambda(st, cargs, &argv[1], argtys[1], None);
             entry.push_str(&format!(",\"lambda\":{}", lam));
         }
         entry.push('}');
@@ -1810,6 +1899,17 @@ impl<'tcx> Cx<'tcx> {
             };
             if mutable {
                 if let V::Ref(p) = a {
+                    if let Some((_, len)) = p.win {
+                        // a slice window: every element in it may have been written
+                        let ety = self.win_elem_ty(st, p)?;
+                        for i in 0..len {
+                            let q = self.elem_ptr(p, i)?;
+                            let nv = self.shape(st, ety, app("mut", vec![ct, cint(&k.to_string()), cint(&i.to_string())]));
+                            self.write(st, &q, nv)?;
+                        }
+                        k += 1;
+                        continue;
+                    }
                     let pty = self.ptr_ty(st, p)?;
                     let nv = self.shape(st, pty, app("mut", vec![ct, cint(&k.to_string())]));
                     self.write(st, p, nv)?;
@@ -1972,7 +2072,7 @@ impl<'tcx> Cx<'tcx> {
     }
 
     /// Summary of the callable passed to `Iterator::fold`, applied to fresh symbols (K7).
-    fn lambda(&self, st: &State<'tcx>, fold_args: GenericArgsRef<'tcx>, f: &V<'tcx>, fty: Ty<'tcx>, acc_ty: Ty<'tcx>) -> String {
+    fn lambda(&self, st: &State<'tcx>, fold_args: GenericArgsRef<'tcx>, f: &V<'tcx>, fty: Ty<'tcx>, acc_ty: Option<Ty<'tcx>>) -> String {
         let tcx = self.tcx;
         let r: R<String> = (|| {
             let iter_ty = fold_args[0].expect_ty();
@@ -1991,7 +2091,9 @@ impl<'tcx> Cx<'tcx> {
                 .find(|a| a.name().as_str() == "call_once")
                 .ok_or("no call_once")?
                 .def_id;
-            let tup = Ty::new_tup(tcx, &[acc_ty, item_ty]);
+            let unary = acc_ty.is_none();
+            let acc_ty = acc_ty.unwrap_or(tcx.types.unit);
+            let tup = if unary { Ty::new_tup(tcx, &[item_ty]) } else { Ty::new_tup(tcx, &[acc_ty, item_ty]) };
             let cargs = tcx.mk_args(&[fty.into(), tup.into()]);
             let inst = Instance::try_resolve(tcx, self.tenv, call_once, cargs).map_err(|_| "resolve err")?.ok_or("callable unresolved")?;
             let body = tcx.instance_mir(inst.def);
@@ -2006,9 +2108,21 @@ impl<'tcx> Cx<'tcx> {
                 s2.cells.push(Cell { ty: lty, v: V::Undef, name: None });
                 locals.push(s2.cells.len() - 1);
             }
-            let argv = vec![f.clone(), V::Agg(vec![acc, item])];
+            let jacc = self.jval(&s2, &acc, acc_ty);
+            let jitem = self.jval(&s2, &item, item_ty);
+            let argv = vec![f.clone(), if unary { V::Agg(vec![item]) } else { V::Agg(vec![acc, item]) }];
             let untuple = matches!(inst.def, InstanceKind::Item(d) if tcx.is_closure_like(d)) && body.spread_arg.is_none();
-            if untuple && body.arg_count == 3 {
+            if unary && untuple && body.arg_count == 2 {
+                s2.cells[locals[1]].v = argv[0].clone();
+                if let V::Agg(fs) = &argv[1] {
+                    s2.cells[locals[2]].v = fs[0].clone();
+                }
+            } else if unary && !untuple && body.arg_count == 2 {
+                s2.cells[locals[1]].v = argv[0].clone();
+                s2.cells[locals[2]].v = argv[1].clone();
+            } else if unary {
+                return Err(format!("unary callable with {} args", body.arg_count));
+            } else if untuple && body.arg_count == 3 {
                 s2.cells[locals[1]].v = argv[0].clone();
                 if let V::Agg(fs) = &argv[1] {
                     s2.cells[locals[2]].v = fs[0].clone();
@@ -2022,7 +2136,7 @@ impl<'tcx> Cx<'tcx> {
             }
             s2.frames.push(Frame { visits: vec![], inst, body, locals, bb: mir::START_BLOCK, ret_to: None });
             let o = self.run(s2);
-            Ok(format!("{{\"callable\":{},\"item_ty\":{},\"out\":{}}}", jstr(&format!("{:?}", fty)), jstr(&format!("{:?}", item_ty)), self.jout(&o, &[])))
+            Ok(format!("{{\"callable\":{},\"item_ty\":{},\"acc\":{},\"item\":{},\"out\":{}}}", jstr(&format!("{:?}", fty)), jstr(&format!("{:?}", item_ty)), jacc, jitem, self.jout(&o, &[])))
         })();
         match r {
             Ok(s) => s,
@@ -2083,7 +2197,12 @@ impl<'tcx> Cx<'tcx> {
                     p.cell,
                     c.name.as_ref().map(|n| jstr(n)).unwrap_or("null".into()),
                     off.map(|o| o.to_string()).unwrap_or("null".into()),
-                    pty.map(|t| self.leaf_count(t).to_string()).unwrap_or("null".into()),
+                    match (p.win, pty) {
+                        // a slice window spans len * (leaves of one element)
+                        (Some((_, len)), Some(_)) => self.win_elem_ty(st, p).map(|e| (len * self.leaf_count(e)).to_string()).unwrap_or("null".into()),
+                        (_, Some(t)) => self.leaf_count(t).to_string(),
+                        _ => "null".into(),
+                    },
                     jstr(&pty.map(|t| format!("{:?}", t)).unwrap_or_default()),
                     val
                 )
@@ -2130,7 +2249,7 @@ pub fn summarise_root<'tcx>(tcx: TyCtxt<'tcx>, did: DefId) -> String {
     let args: GenericArgsRef<'tcx> = ty::GenericArgs::identity_for_item(tcx, did);
     let inst = Instance::new_raw(did, args);
     let body = tcx.instance_mir(inst.def);
-    let mut st = State { cells: vec![], frames: vec![], trace: vec![] };
+    let mut st = State { cells: vec![], frames: vec![], trace: vec![], decided: vec![], symcells: vec![], excluded: vec![] };
     let mut locals = vec![];
     for decl in body.local_decls.iter() {
         st.cells.push(Cell { ty: decl.ty, v: V::Undef, name: None });
